@@ -73,6 +73,31 @@ type c10Step struct {
 	commit   bool // first step only: restart after a Commit that dispatched nothing
 	partial  bool
 	letters  string // per ORIGINAL recipient position
+	panicAt  byte   // attempt: the target PANICS at 's' Start, 'r' its first AddRcpt, 'b' the body stage (the final Abort when nobody was accepted), 'c' the final Commit/Abort; 0 = never
+	left     byte   // restart: '0'..'9' = a leftover ID.meta.new of that class lies beside the intact ID.meta when the new instance starts; 0 = none
+}
+
+// token renders the step (letters: the plan letters to print).
+func (st c10Step) token(letters string) string {
+	if st.restart {
+		t := "r"
+		if st.commit {
+			t = "R"
+		}
+		if st.left != 0 {
+			t += "n" + string(st.left)
+		}
+		return t
+	}
+	t := "aA"
+	if st.partial {
+		t = "aP"
+	}
+	t += letters
+	if st.panicAt != 0 {
+		t += "!" + string(st.panicAt)
+	}
+	return t
 }
 
 type c10Field struct {
@@ -141,13 +166,24 @@ func c10GenBody(kind, n int, seed uint64) []byte {
 func c10ParseHist(h string) ([]c10Step, error) {
 	var steps []c10Step
 	for si, s := range strings.Split(h, ".") {
+		var left byte
+		if len(s) == 3 && (s[0] == 'r' || s[0] == 'R') && s[1] == 'n' && s[2] >= '0' && s[2] <= '9' {
+			left, s = s[2], s[:1]
+		}
 		switch {
 		case s == "r":
-			steps = append(steps, c10Step{restart: true})
+			steps = append(steps, c10Step{restart: true, left: left})
 		case s == "R" && si == 0:
-			steps = append(steps, c10Step{restart: true, commit: true})
+			steps = append(steps, c10Step{restart: true, commit: true, left: left})
 		case len(s) >= 2 && s[0] == 'a' && (s[1] == 'P' || s[1] == 'A'):
-			steps = append(steps, c10Step{partial: s[1] == 'P', letters: s[2:]})
+			st := c10Step{partial: s[1] == 'P', letters: s[2:]}
+			if k := strings.IndexByte(st.letters, '!'); k >= 0 {
+				if k+2 != len(st.letters) || !strings.ContainsRune("srbc", rune(st.letters[k+1])) {
+					return nil, fmt.Errorf("bad step %q", s)
+				}
+				st.panicAt, st.letters = st.letters[k+1], st.letters[:k]
+			}
+			steps = append(steps, st)
 		default:
 			return nil, fmt.Errorf("bad step %q", s)
 		}
@@ -308,6 +344,7 @@ type c10Seen struct {
 	lenMethod             int
 	leak                  string
 	answeredTemp          []string // recipients this attempt left pending, by the target's own answers
+	panicked              byte     // the target panicked in this attempt, at this stage
 	reps                  []*c10Report // failure reports generated right after this attempt, in order
 }
 
@@ -330,6 +367,7 @@ type c10Target struct {
 	q        *Queue
 	seen     []*c10Seen
 	done     int
+	panicked bool // the target panicked in an attempt (sticky): the queue's recover handler has run or is running
 	id       string
 	accBody  []byte
 	spool    string
@@ -379,11 +417,24 @@ func (t *c10Target) Start(ctx context.Context, msgMeta *module.MsgMetadata, mail
 		}
 	}
 	t.seen = append(t.seen, s)
+	if step.panicAt == 's' {
+		t.panicLocked(s, 's')
+	}
 	d := &c10Delivery{t: t, s: s, step: step}
 	if step.partial {
 		return &c10DeliveryPartial{d}, nil
 	}
 	return d, nil
+}
+
+// panicLocked (t.mu held; the callers release it in a deferred call): a defect of the downstream target
+// - a nil dereference, an index out of range - in the middle of a delivery attempt.  The attempt counts
+// as over for the harness; the queue's deferred handler in dispatch recovers (dontRecover = false).
+func (t *c10Target) panicLocked(s *c10Seen, stage byte) {
+	s.panicked = stage
+	t.panicked = true
+	t.done++
+	panic("verif c10: scripted panic of the downstream target at stage " + string(stage))
 }
 
 var (
@@ -395,6 +446,9 @@ func (d *c10Delivery) AddRcpt(ctx context.Context, to string, _ smtp.RcptOptions
 	d.t.mu.Lock()
 	defer d.t.mu.Unlock()
 	d.s.to = append(d.s.to, to)
+	if d.step.panicAt == 'r' && len(d.s.to) == 1 {
+		d.t.panicLocked(d.s, 'r')
+	}
 	switch d.t.letter(d.step, to) {
 	case 'q':
 		d.s.answeredTemp = append(d.s.answeredTemp, to)
@@ -447,6 +501,9 @@ func (d *c10Delivery) Body(ctx context.Context, header textproto.Header, body bu
 	d.t.mu.Lock()
 	defer d.t.mu.Unlock()
 	d.record(header, body)
+	if d.step.panicAt == 'b' {
+		d.t.panicLocked(d.s, 'b')
+	}
 	if d.bodyFails() {
 		// atomic target: the whole body stage fails temporarily, every accepted recipient stays pending
 		var keep []string
@@ -466,6 +523,9 @@ func (d *c10DeliveryPartial) BodyNonAtomic(ctx context.Context, sc module.Status
 	d.t.mu.Lock()
 	defer d.t.mu.Unlock()
 	d.record(header, body)
+	if d.step.panicAt == 'b' {
+		d.t.panicLocked(d.s, 'b')
+	}
 	var keep []string
 	for _, r := range d.s.to {
 		l := d.t.letter(d.step, r)
@@ -490,8 +550,11 @@ func (d *c10DeliveryPartial) BodyNonAtomic(ctx context.Context, sc module.Status
 
 func (d *c10Delivery) finish() {
 	d.t.mu.Lock()
+	defer d.t.mu.Unlock()
+	if d.step.panicAt == 'c' || d.step.panicAt == 'b' { // 'b': nobody was accepted, the body stage is never reached
+		d.t.panicLocked(d.s, d.step.panicAt)
+	}
 	d.t.done++
-	d.t.mu.Unlock()
 }
 
 func (d *c10Delivery) Abort(ctx context.Context) error  { d.finish(); return nil }
@@ -689,6 +752,89 @@ type c10World struct {
 	nreports, orphanReports int
 	reportsElsewhere int // reports the OTHER queue of a two-queue case had generated before this one's Commit
 	afterFirst func() // called once when the first run of attempts is over (or at the end of the history)
+	planted  []string // leftover ID.meta.new files put beside the intact ID.meta before a restart: "class:cut/len"
+	notPlanted int    // restarts with a leftover in the history at which there was no ID.meta any more
+}
+
+// hasMeta: a live spool entry (a file *.meta) exists.
+func (w *c10World) hasMeta() bool {
+	ents, _ := os.ReadDir(w.spool)
+	for _, e := range ents {
+		if strings.HasSuffix(e.Name(), ".meta") {
+			return true
+		}
+	}
+	return false
+}
+
+// plantLeftover: the server was killed while updateMetadataOnDisk was writing ID.meta.new (os.Create,
+// a partial write, no Sync, no rename): beside the intact ID.meta lies an ID.meta.new holding the first
+// bytes of the same document - nothing (class 0), one byte, a quarter, half, cut inside the first
+// recipient string, at the opening of the sender string, without the closing brace, complete but for
+// the final newline, complete, cut inside a multi-byte character (else three quarters).
+func (w *c10World) plantLeftover(cls byte) {
+	ents, _ := os.ReadDir(w.spool)
+	name := ""
+	for _, e := range ents {
+		if strings.HasSuffix(e.Name(), ".meta") {
+			name = e.Name()
+		}
+	}
+	if name == "" {
+		w.notPlanted++
+		return
+	}
+	data, err := os.ReadFile(filepath.Join(w.spool, name))
+	if err != nil {
+		w.notPlanted++
+		return
+	}
+	n := len(data)
+	cut := n
+	after := func(marker string, extra, fallback int) int {
+		if i := bytes.Index(data, []byte(marker)); i >= 0 {
+			return i + len(marker) + extra
+		}
+		return fallback
+	}
+	switch cls {
+	case '0':
+		cut = 0
+	case '1':
+		cut = 1
+	case '2':
+		cut = n / 4
+	case '3':
+		cut = n / 2
+	case '4':
+		cut = after("\"To\":[\"", 1, n/3)
+	case '5':
+		cut = after("\"From\":\"", 0, n/5)
+	case '6':
+		cut = n - 2
+	case '7':
+		cut = n - 1
+	case '8':
+		cut = n
+	default:
+		cut = 3 * n / 4
+		for i, b := range data {
+			if b >= 0xc0 {
+				cut = i + 1
+				break
+			}
+		}
+	}
+	if cut < 0 {
+		cut = 0
+	}
+	if cut > n {
+		cut = n
+	}
+	if err := os.WriteFile(filepath.Join(w.spool, name+".new"), data[:cut], 0o666); err != nil {
+		panic(err)
+	}
+	w.planted = append(w.planted, fmt.Sprintf("%c:%d/%d", cls, cut, n))
 }
 
 func c10NewWorld(steps []c10Step, secrets [][]byte) *c10World {
@@ -758,16 +904,36 @@ func (w *c10World) wait(want int) {
 		limit = 500 * time.Millisecond
 	}
 	deadline := time.Now().Add(limit)
+	panDeadline := deadline
+	if limit > 10*time.Second {
+		panDeadline = time.Now().Add(10 * time.Second)
+	}
 	var idleSince time.Time
 	for {
 		w.tgt.mu.Lock()
 		done := w.tgt.done
 		started := len(w.tgt.seen)
+		pan := w.tgt.panicked
 		w.tgt.mu.Unlock()
 		w.logMu.Lock()
 		re := w.readErrs
 		ld := w.loaded
 		w.logMu.Unlock()
+		if pan {
+			// the target panicked: dispatch's deferred handler (which runs AFTER deliveryWg.Done) marks the
+			// entry as broken - the live ID.meta goes away; nothing is scheduled any more, by this instance
+			// or (no ID.meta) by a later one
+			if !w.hasMeta() {
+				return
+			}
+			if time.Now().After(panDeadline) {
+				w.timedOut = true
+				atomic.AddInt32(&c10Timeouts, 1)
+				return
+			}
+			time.Sleep(200 * time.Microsecond)
+			continue
+		}
 		if done >= want || re > 0 {
 			return
 		}
@@ -785,7 +951,7 @@ func (w *c10World) wait(want int) {
 		} else {
 			idleSince = time.Time{}
 		}
-		if ents, _ := os.ReadDir(w.spool); len(ents) == 0 {
+		if !w.hasMeta() { // removeFromDisk removes ID.meta last (a leftover ID.meta.new may stay behind)
 			return
 		}
 		if time.Now().After(deadline) {
@@ -850,9 +1016,16 @@ func (w *c10World) drive(steps []c10Step, committed bool) {
 			q.Close()
 		}
 		for k := 0; k < m-1; k++ {
+			if steps[i+k].left != 0 {
+				w.plantLeftover(steps[i+k].left)
+			}
 			qi := w.newQ(true)
 			qi.deliveryWg.Wait()
 			qi.Close()
+			w.scan(fmt.Sprintf("after the idle restart at step %d", i+k+1))
+		}
+		if steps[i+m-1].left != 0 {
+			w.plantLeftover(steps[i+m-1].left)
 		}
 		i += m
 		if i >= len(steps) {
@@ -932,8 +1105,12 @@ func (w *c10World) observation(strs []string, id string) (string, string) {
 		if s.gotBody {
 			cont = fmt.Sprintf("hdr=%d.%d.%d body=%d.%d", s.nfields, len(s.hdr), c10Digest(s.hdr), s.bodyLen, s.bodyDigest)
 		}
-		obs = append(obs, fmt.Sprintf("[from=%s to=%s f=%s%s%s orc=%s c=%s %s]", showS(s.from), showL(s.to),
-			c10Bit(s.utf8), c10Bit(s.rtls), c10Bit(s.tro), showM(s.orc), c10Bit(s.conn), cont))
+		bang := ""
+		if s.panicked != 0 {
+			bang = "!" // the target panicked in this attempt: what it had been handed until then
+		}
+		obs = append(obs, fmt.Sprintf("[from=%s to=%s f=%s%s%s orc=%s c=%s %s]%s", showS(s.from), showL(s.to),
+			c10Bit(s.utf8), c10Bit(s.rtls), c10Bit(s.tro), showM(s.orc), c10Bit(s.conn), cont, bang))
 		for _, rep := range s.reps {
 			switch {
 			case rep.failed:
@@ -949,20 +1126,42 @@ func (w *c10World) observation(strs []string, id string) (string, string) {
 	obs = append(obs, w.events...)
 	ents, _ := os.ReadDir(w.spool)
 	fin := "end=removed"
-	if len(ents) > 0 {
+	var names []string
+	hasLive, hasBroken := false, false
+	for _, e := range ents {
+		n := e.Name()
+		if strings.HasPrefix(n, id) {
+			n = "ID" + n[len(id):]
+		}
+		if n == "ID.meta.new" && len(w.planted) > 0 {
+			// the leftover the harness put there; the queue overwrites it with its next rewrite or never
+			// looks at it again (the model has no such file)
+			continue
+		}
+		hasLive = hasLive || n == "ID.meta"
+		hasBroken = hasBroken || n == "ID.meta_broken"
+		names = append(names, n)
+	}
+	sort.Strings(names)
+	switch {
+	case len(names) == 0:
+	case hasBroken && !hasLive:
+		// discardBroken after a panic of the target: ID.meta renamed, header and body stay
+		fin = "end=broken:?"
+		if blob, err := os.ReadFile(filepath.Join(w.spool, id+".meta_broken")); err == nil {
+			m := &QueueMetadata{MsgMeta: &module.MsgMetadata{}}
+			if json.Unmarshal(blob, m) == nil {
+				fin = "end=broken:" + showL(m.To)
+			}
+		}
+		if strings.Join(names, ",") != "ID.body,ID.header,ID.meta_broken" {
+			fin += "(files:" + strings.Join(names, ",") + ")"
+		}
+	default:
 		fin = "end=pending:?"
 		if m, err := w.q.readMessageMeta(id); err == nil {
 			fin = "end=pending:" + showL(m.To)
 		}
-		var names []string
-		for _, e := range ents {
-			n := e.Name()
-			if strings.HasPrefix(n, id) {
-				n = "ID" + n[len(id):]
-			}
-			names = append(names, n)
-		}
-		sort.Strings(names)
 		if strings.Join(names, ",") != "ID.body,ID.header,ID.meta" {
 			fin += "(files:" + strings.Join(names, ",") + ")"
 		}
@@ -1030,10 +1229,20 @@ func (w *c10World) monitor(out *vh.Out, op string, acc *c10Accepted, strictEnv b
 		if s.from != acc.from {
 			viol("C10/sender-changed", fmt.Sprintf("%ssender %q, accepted %q", at, s.from, acc.from))
 		}
-		if !eqL(s.to, expectTo) {
-			viol("C10/pending-recipients-changed", fmt.Sprintf("%srecipients %q, still pending %q", at, s.to, expectTo))
+		switch s.panicked {
+		case 's', 'r':
+			// the target panicked before it had been given all recipients: those it was given are pending ones
+			if rest := c10MultisetMinus(expectTo, s.to); len(rest)+len(s.to) != len(expectTo) {
+				viol("C10/pending-recipients-changed", fmt.Sprintf("%srecipients %q (then the target panicked), still pending %q", at, s.to, expectTo))
+			}
+		default:
+			if !eqL(s.to, expectTo) {
+				viol("C10/pending-recipients-changed", fmt.Sprintf("%srecipients %q, still pending %q", at, s.to, expectTo))
+			}
 		}
-		expectTo = s.answeredTemp
+		if s.panicked == 0 {
+			expectTo = s.answeredTemp
+		}
 		if s.utf8 != acc.utf8 {
 			viol("C10/smtputf8-changed", at+"SMTPUTF8 "+c10Bit(s.utf8))
 		}
@@ -1100,6 +1309,14 @@ func (w *c10World) monitorPending(out *vh.Out, op string, acc *c10Accepted, stri
 	}
 	pend := append([]string{}, acc.to...)
 	for _, s := range seen {
+		if s.panicked != 0 {
+			// the downstream target PANICKED in this attempt: the queue's recover handler marks the entry
+			// as broken (ID.meta -> ID.meta_broken, logged) - a recorded terminal outcome, for the
+			// administrator to look at; no further attempt is due (what the spool holds from then on is
+			// still subject to the credentials rule, and whatever IS handed over to the per-attempt rules)
+			out.Stat(w.pfx + "pending-rule.not-applicable.marked-broken-after-a-panic-of-the-target")
+			return
+		}
 		pend = s.answeredTemp
 	}
 	// the queue's own record of a terminal outcome (it gave the recipient up and owes a DSN: whether
@@ -1198,6 +1415,20 @@ func (w *c10World) monitorPending(out *vh.Out, op string, acc *c10Accepted, stri
 	}
 }
 
+// c10MultisetMinus: a without (one occurrence each of) the elements of b that occur in it.
+func c10MultisetMinus(a, b []string) []string {
+	rest := append([]string{}, a...)
+	for _, x := range b {
+		for i, y := range rest {
+			if x == y {
+				rest = append(rest[:i], rest[i+1:]...)
+				break
+			}
+		}
+	}
+	return rest
+}
+
 func (w *c10World) stats(out *vh.Out, pfx string, steps []c10Step, acc *c10Accepted, fin string) {
 	w.tgt.mu.Lock()
 	seen := w.tgt.seen
@@ -1294,6 +1525,44 @@ func (w *c10World) stats(out *vh.Out, pfx string, steps []c10Step, acc *c10Accep
 		}
 	}
 	out.Stat(fmt.Sprintf("%s.orc.%d", pfx, len(acc.orc)))
+	for k, s := range seen {
+		if s.panicked != 0 {
+			src := "from-the-spool"
+			if k == 0 && !(len(steps) > 0 && steps[0].restart) {
+				src = "from-memory"
+			}
+			out.Stat(fmt.Sprintf("%s.target-panic.stage-%c.%s.conn-%s", pfx, s.panicked, src, c10Bit(s.conn)))
+			out.Stat(pfx + ".target-panic." + strings.SplitN(fin, ":", 2)[0])
+		}
+	}
+	for _, p := range w.planted {
+		out.Stat(pfx + ".leftover-meta-new.class-" + p[:1])
+		if strings.HasPrefix(p[2:], "0/") {
+			out.Stat(pfx + ".leftover-meta-new.empty")
+		} else if a := strings.SplitN(p[2:], "/", 2); a[0] == a[1] {
+			out.Stat(pfx + ".leftover-meta-new.complete")
+		} else {
+			out.Stat(pfx + ".leftover-meta-new.truncated")
+		}
+	}
+	if len(w.planted) > 0 {
+		// an attempt took place after the restart that found the leftover
+		na, after := 0, false
+		for _, st := range steps {
+			if st.restart && st.left != 0 {
+				after = true
+			} else if !st.restart {
+				if after && na < len(seen) {
+					out.Stat(pfx + ".leftover-meta-new.attempt-after-it")
+					break
+				}
+				na++
+			}
+		}
+	}
+	if w.notPlanted > 0 {
+		out.Stat(pfx + ".leftover-meta-new.no-entry-left")
+	}
 }
 
 func c10Secrets(tag string) (user, pass string, secrets [][]byte) {
@@ -2281,6 +2550,110 @@ func c10GenBounce(r *vh.Rng, k int) string {
 	return c10OpLine(strs, strings.Join(steps, "."), strings.Join(fields, ","), body, from, to, orc, flags, []int{0, 1, 2}[r.Intn(3)], c10Bit(r.Chance(50)), dsn, peerS)
 }
 
+// ---- crash grid: a target that panics inside an attempt; a kill while ID.meta.new is being written ----
+
+// c10DecorateHist puts, on top of a generated history, a leftover ID.meta.new at some of the restarts
+// and - in panicPct % of the cases - a panic of the target into one attempt (half of the time the first).
+func c10DecorateHist(r *vh.Rng, hist string, panicPct, leftPct int) string {
+	steps := strings.Split(hist, ".")
+	var att []int
+	for i, st := range steps {
+		switch {
+		case st == "r" || st == "R":
+			if r.Chance(leftPct) {
+				steps[i] += "n" + string(byte('0'+r.Intn(10)))
+			}
+		case strings.HasPrefix(st, "a") && !strings.Contains(st, "!"):
+			att = append(att, i)
+		}
+	}
+	if len(att) > 0 && r.Chance(panicPct) {
+		k := att[0]
+		if r.Chance(50) {
+			k = att[r.Intn(len(att))]
+		}
+		steps[k] += "!" + string("srbc"[r.Intn(4)])
+	}
+	return strings.Join(steps, ".")
+}
+
+// c10DecorateOp: the same for an op line (`C10 run` incl. the second queue's history, `C10 smtp`).
+func c10DecorateOp(r *vh.Rng, op string, panicPct, leftPct int) string {
+	t := strings.Fields(op)
+	if len(t) < 3 {
+		return op
+	}
+	t[2] = c10DecorateHist(r, t[2], panicPct, leftPct)
+	if last := t[len(t)-1]; strings.HasPrefix(last, "peer=") && last != "peer=-" {
+		if k := strings.IndexByte(last, '/'); k >= 0 {
+			t[len(t)-1] = last[:k+1] + c10DecorateHist(r, last[k+1:], panicPct/2, leftPct)
+		}
+	}
+	return strings.Join(t, " ")
+}
+
+// crash-grid histories: letters for (the first recipient, every other recipient); %s = the panic stage
+// resp. the leftover class.  Every panic shape goes on with steps that must not take place.
+var c10PanicShapes = [][]string{
+	{"P:tt!%s", "r", "P:oo"},                  // first attempt, served from memory (connection state of the session still attached)
+	{"A:tt!%s", "P:oo", "r", "P:oo"},          // the same with an atomic target
+	{"R", "P:tt!%s", "r", "P:oo"},             // first attempt, already served from the spool
+	{"P:tt", "P:to!%s", "r", "P:oo"},          // in-process retry
+	{"P:to", "r", "A:tt!%s", "r", "r", "P:oo"}, // retry after a restart, some delivered before
+	{"A:tq", "P:tp!%s", "P:oo"},               // a recipient given up (failure report) in the attempt that panics
+}
+
+var c10LeftoverShapes = [][]string{
+	{"P:to", "rn%s", "P:oo"},                  // partial first attempt, kill in a later rewrite, restart, delivered
+	{"P:tt", "P:to", "rn%s", "r", "A:tt", "P:oo"},
+	{"Rn%s", "P:to", "P:oo"},                  // accepted by a stopping queue, leftover before the first attempt ever
+	{"P:tt", "rn%s"},                          // at rest after the restart with everybody pending
+	{"P:tp", "rn%s", "rn0", "P:oo", "r"},      // a failure report before, two restarts with leftovers
+	{"A:tt", "rn%s", "P:tt!c", "r", "P:oo"},   // leftover, then the target panics in the attempt after the restart
+}
+
+func c10ExpandShape(shape []string, arg string, n int) string {
+	var steps []string
+	for _, st := range shape {
+		if strings.Contains(st, "%s") {
+			st = fmt.Sprintf(st, arg)
+		}
+		if st[0] == 'r' || st[0] == 'R' {
+			steps = append(steps, st)
+			continue
+		}
+		steps = append(steps, "a"+st[:1]+st[2:3]+strings.Repeat(st[3:4], n-1)+st[4:])
+	}
+	return strings.Join(steps, ".")
+}
+
+// c10GenCrash: case k of the crash grid - a generated message (header, body, envelope, options as for the
+// random cases) under a grid history; three in four submitted over an authenticated session.
+func c10GenCrash(r *vh.Rng, k int) string {
+	t := strings.Fields(c10GenRun(r, false, -1))
+	n := 1
+	for _, tok := range t {
+		if strings.HasPrefix(tok, "to=") {
+			n = strings.Count(tok, ".") + 1
+		}
+	}
+	np := len(c10PanicShapes) * 4
+	if k < np {
+		t[2] = c10ExpandShape(c10PanicShapes[k/4], string("srbc"[k%4]), n)
+	} else {
+		j := k - np
+		t[2] = c10ExpandShape(c10LeftoverShapes[(j/10)%len(c10LeftoverShapes)], string(byte('0'+j%10)), n)
+	}
+	for i, tok := range t {
+		if strings.HasPrefix(tok, "auth=") && k%4 != 3 {
+			t[i] = "auth=2"
+		}
+	}
+	return strings.Join(t, " ")
+}
+
+const c10CrashGrid = 6*4 + 6*10
+
 // c10JSONRoundTrip: what encoding/json makes of a string (the model's parameter `co`).
 func c10JSONRoundTrip(s string) string {
 	b, err := json.Marshal(s)
@@ -2357,10 +2730,14 @@ func c10GenBlobWF(r *vh.Rng) []byte {
 	return b
 }
 
+// dispatch logs every recovered panic with its stack through the global logger
+func c10QuietPanics() { log.DefaultLogger.Out = log.NopOutput{} }
+
 func TestVerifC10Run(t *testing.T) {
 	out := vh.Open("c10_run")
 	defer out.Close()
 	dontRecover = false
+	c10QuietPanics()
 	if ops := vh.Replay(); ops != nil {
 		for _, op := range ops {
 			if strings.HasPrefix(op, "C10 run ") {
@@ -2386,8 +2763,13 @@ func TestVerifC10Run(t *testing.T) {
 			}
 		}()
 	}
+	rd := vh.NewRng(vh.Seed() + 2014)
 	for i := 0; i < n; i++ {
-		jobs <- c10GenRun(r, i < nbig, -1)
+		op := c10GenRun(r, i < nbig, -1)
+		if i >= nbig {
+			op = c10DecorateOp(rd, op, 10, 25)
+		}
+		jobs <- op
 	}
 	nedge := len(c10EdgeSizes) * c10EdgeShapes
 	if vh.Thorough() {
@@ -2406,6 +2788,17 @@ func TestVerifC10Run(t *testing.T) {
 	rb := vh.NewRng(vh.Seed() + 2012)
 	for k := 0; k < nbounce; k++ {
 		jobs <- c10GenBounce(rb, k)
+	}
+	// crash grid: the target panics at Start / AddRcpt / the body stage / Commit of the first attempt (from
+	// memory, from the spool), of a retry, after a restart; restarts that find a leftover ID.meta.new
+	// (empty, truncated at ten kinds of places, complete) beside the intact ID.meta
+	ncrash := c10CrashGrid
+	if vh.Thorough() {
+		ncrash *= 4
+	}
+	rc := vh.NewRng(vh.Seed() + 2013)
+	for k := 0; k < ncrash; k++ {
+		jobs <- c10GenCrash(rc, k%c10CrashGrid)
 	}
 	// fixed cases (whatever the seed): a message with an EMPTY body / with a header without a single
 	// field, restarted before its first attempt resp. before its second one
@@ -2429,6 +2822,14 @@ func TestVerifC10Run(t *testing.T) {
 	jobs <- c10OpLine(fstrs(), "aPpt.aPot.r.aPoo", bhdr, small, 1, []int{5, 3}, "-", "00000", 1, "0", 1, "-")
 	jobs <- c10OpLine(fstrs(), "aApq.r.aPot.aPoo", bhdr, small, 1, []int{2, 3}, "2:6", "01100", 2, "1", 1, "4.5/aPtt.r.aPop")
 	jobs <- c10OpLine(fstrs(), "aPtt.aPpt.r.aPot.r", bhdr, small, 6, []int{2, 3}, "-", "10000", 0, "0", 2, "4/R.aPt.aPo")
+	// ... a target that panics in the first attempt of a message submitted over an authenticated session
+	// (body stage; Start; the final Commit of a retry); a restart that finds a truncated ID.meta.new
+	jobs <- c10OpLine(fstrs(), "aPto!b.r.aPoo", bhdr, small, 1, []int{2, 3}, "-", "00000", 2, "0", 1, "-")
+	jobs <- c10OpLine(fstrs(), "aAtt!s.aPoo", bhdr, small, 1, []int{2, 3}, "2:6", "11100", 2, "1", 0, "-")
+	jobs <- c10OpLine(fstrs(), "aPtt.aAot!c.r.aPoo", bhdr, small, 1, []int{5, 3}, "-", "10000", 2, "0", 1, "4/aPt!r.r.aPo")
+	jobs <- c10OpLine(fstrs(), "aPto.rn3.aPoo", bhdr, small, 1, []int{2, 3}, "-", "00000", 2, "0", 1, "-")
+	jobs <- c10OpLine(fstrs(), "aPot.rn4.r.aAtt.rn6.aPoo", bhdr, small, 1, []int{2, 3}, "2:6", "01100", 1, "1", 1, "-")
+	jobs <- c10OpLine(fstrs(), "Rn1.aPto.rn9.aPpo", bhdr, small, 1, []int{5, 3}, "-", "10000", 0, "0", 1, "-")
 	close(jobs)
 	wg.Wait()
 	_ = errors.New
